@@ -77,7 +77,9 @@ def fam_swap(tier):
               "c(i,j) = c(i+1,j-1) * 2.0", "t = t * 0.5 + c(i,j)", "a(j) = a(i) + 1.0",
               "c(i,j) = a(i) * b(j)", "c(j,i) = c(i,j)", "kout = i * 10 + j"]
     nests = [("1", "n", "1", "m+1"), ("1", "4", "1", "n"), ("n", "1, -1", "1", "3"),
-             ("1", "n", "j", "4"), ("1", "n", "1", "3, 2"), ("1", "n", "1", "j"), ("1", "4", "1", "m+j")]
+             ("1", "n", "j", "4"), ("1", "n", "1", "3, 2"), ("1", "n", "1", "j"), ("1", "4", "1", "m+j"),
+             # a step that uses the other loop's variable / another scalar
+             ("1", "3", "1", "5, j"), ("1", "n", "0", "4, m"), ("1", "4, m", "1", "n")]
     for (jl, jh, il, ih), b in itertools.product(nests, bodies):
         yield (f"swap|{jl},{jh}|{il},{ih}|{b}",
                prog([f"do j = {jl}, {jh}", f"  do i = {il}, {ih}", "    " + b,
